@@ -82,6 +82,17 @@ def cases(tier, seed):
             for form in ('submodule', 'named-target', 'copy-directory'):
                 yield {'kind': 'sibling', 'backend': backend, 'dir': d, 'sibling': sib,
                        'rest': rest, 'form': form}
+    # a target two or more directories deep with sources from OTHER trees that repeat one of
+    # its directory names at the same depth (tools/common <- src/common/util.c, test/common/
+    # util.c): a relative-path computation that counts matching components instead of the
+    # common prefix folds both onto '../common/util'
+    for backend in ('make', 'ninja'):
+        for tdir, a, b in (('tools/common', 'src/common/util', 'test/common/util'),
+                           ('a/b/c', 'x/b/c/m', 'y/b/c/m'), ('one/two', 'two/two/f', 'one/one/f'),
+                           ('p/q/r', 'p/x/r/u', 'p/y/r/u')):
+            for form in ('submodule', 'named-target', 'copy-directory'):
+                yield {'kind': 'sibling', 'backend': backend, 'dir': tdir, 'sibling': None,
+                       'rest': None, 'form': form, 'sources': [a, b], 'tag': 'cross-tree'}
     n = 30 if tier == 'quick' else 250
     for i in range(n):
         r = core.rng_for(seed, 'c05set', i)
@@ -411,13 +422,19 @@ def run_sibling(case, res):
     try:
         src, bld = os.path.join(root, 'src'), os.path.join(root, 'bld')
         ext = '.txt' if case['form'] == 'copy-directory' else '.c'
-        a = '%s/util%s' % (sib, ext)            # sibling directory
-        b = '%s/%s/util%s' % (d, rest, ext)     # what a prefix-stripping slip would fold it onto
+        tag = case.get('tag') or 'sibling-dir-name-extends-target-dir'
+        up = '/'.join(['..'] * (d.count('/') + 1)) + '/'
+        if case.get('sources'):
+            a, b = [x + ext for x in case['sources']]
+            sub_refs = [up + a, up + b]
+        else:
+            a = '%s/util%s' % (sib, ext)            # sibling directory
+            b = '%s/%s/util%s' % (d, rest, ext)     # what a prefix-stripping slip would fold it onto
+            sub_refs = ['../' + a, '%s/util%s' % (rest, ext)]
         files = {a: 'int a_;\n', b: 'int b_;\n'}
         if case['form'] == 'submodule':
             files['build.bfg'] = 'submodule(%r)\n' % d
-            files[d + '/build.bfg'] = "executable('prog', files=[%r, %r])\n" % (
-                '../' + a, '%s/util%s' % (rest, ext))
+            files[d + '/build.bfg'] = "executable('prog', files=[%r, %r])\n" % tuple(sub_refs)
         elif case['form'] == 'named-target':
             files['build.bfg'] = "executable(%r, files=[%r, %r])\n" % (d + '/tool', a, b)
         else:
@@ -433,11 +450,11 @@ def run_sibling(case, res):
         extra.update({'CP': 'vwrap-cp -f', 'VSTUB_ENVKEYS': 'NONE'})
         env = core.base_env(extra)
         res.evaluations = 1
-        res.key(['sibling', backend, d, sib, case['form']], True)
+        res.key(['sibling', backend, d, sib or case.get('sources'), case['form']], True)
         wb = {'backend': backend, 'form': case['form'], 'sources': [a, b]}
         rc, out = proj.configure(src, bld, backend, env=env)
         if rc != 0:
-            res.violate((backend, 'distinct-sources-refused', 'sibling-dir-name-extends-target-dir'),
+            res.violate((backend, 'distinct-sources-refused', tag),
                         dict(wb, output=out[-500:]))
             return
         rc, out = proj.build(bld, backend, [], env=env)
@@ -448,7 +465,7 @@ def run_sibling(case, res):
                 o = [os.path.normpath(os.path.join(r['cwd'], r['argv'][-1]))]
             outs.extend(x for x in o if x.endswith('.o') or ext == '.txt')
         if rc != 0 or len(outs) != 2 or len(set(outs)) != 2:
-            res.violate((backend, 'outputs-collide', 'sibling-dir-name-extends-target-dir'),
+            res.violate((backend, 'outputs-collide', tag),
                         dict(wb, outputs=[os.path.relpath(o, bld) for o in outs], rc=rc,
                              output=out[-300:]))
         for o in outs:
